@@ -405,7 +405,7 @@ def run_netstring(ctx, B):
             ns_case(ctx, B, data[:cut], k, 0, None if (cut + i) % 2 else b"", "prefix", must_reject=True)
             if ctx.tier == "thorough" or ctx.search:
                 ns_case(ctx, B, data[:cut], k, 0, b"" if (cut + i) % 2 else None, "prefix", must_reject=True)
-    nv = ctx.n(140, 3000)
+    nv = ctx.n(120, 3000)
     valid = []
     for i in range(nv):
         r = ctx.rng("ns", i)
@@ -445,7 +445,7 @@ def run_netstring(ctx, B):
             ns_case(ctx, B, data, k, r.randrange(0, len(data) + 2), None, "position")
         elif shape == 3:
             ns_case(ctx, B, data, 0, 0, None, "count-zero")
-    nm = ctx.n(260, 6000)
+    nm = ctx.n(200, 6000)
     numerals = [b"+", b"0", b" ", b"\t", b"_", b"-", b"00"]
     for i in range(nm):
         r = ctx.rng("nsm", i)
@@ -561,7 +561,7 @@ REAL_KEYS = ["codec_name", "codec_params", "tail_codec_params", "size", "segment
 def run_ueb(ctx, B):
     from allmydata import uri
     ctx.correspondence("ueb")
-    nv = ctx.n(130, 3000)
+    nv = ctx.n(110, 3000)
     valid = []
     for i in range(nv):
         r = ctx.rng("ueb", i)
@@ -619,7 +619,7 @@ def run_ueb(ctx, B):
         ctx.case(("ueb-pack1", k, v) if s is not None else None, kind="ueb-pack-odd")
         B.add("opt_bytes_eqb (ueb_pack %s) %s" % (ueb_dict_term(d), opt_bytes(s)), "ueb", "pack_extension({%r: %r})" % (k, v),
               {"codec": "ueb", "op": "pack", "key": repr(k), "value": repr(v)}, None if s is None else s.hex())
-    nm = ctx.n(280, 7000)
+    nm = ctx.n(220, 7000)
     for i in range(nm):
         r = ctx.rng("uebm", i)
         s = r.choice(valid)
@@ -980,6 +980,135 @@ def run_headers(ctx, B):
             ctx.sample({"codec": "mutable-header", "version": mv, "header": raw[:100].hex()})
 
 
+def run_recognition(ctx, B):
+    """Header recognition: schema_from_header / is_valid_header / MutableShareFile / get_share_file (and the
+    immutable counterpart) accept a header only when the complete magic (version field) is there and intact."""
+    from allmydata.storage import immutable_schema, mutable_schema
+    from allmydata.storage.immutable import ShareFile
+    from allmydata.storage.mutable import MutableShareFile
+    from allmydata.storage.shares import get_share_file
+    from allmydata.storage.common import UnknownImmutableContainerVersionError, UnknownMutableContainerVersionError
+    ctx.correspondence("header-recognition")
+    d = env.subdir("c38-recog")
+    thorough = ctx.tier == "thorough" or ctx.search
+
+    def recognise(data):
+        """(schema_from_header version or None, is_valid_header)"""
+        sch = mutable_schema.schema_from_header(data)
+        return (None if sch is None else sch.version), bool(MutableShareFile.is_valid_header(data))
+
+    def model_term(data, ver):
+        return "match mut_schema_from_header mschema_versions %s, %s with Some a, Some b => a =? b | None, None => true | _, _ => false end" % (
+            T.bytes_(data), "None" if ver is None else "(Some %s)" % T.N(ver))
+
+    for sch in sorted(mutable_schema.ALL_SCHEMAS, key=lambda x: x.version):
+        v = sch.version
+        for trial in range(ctx.n(2, 12)):
+            r = ctx.rng("recog", v, trial)
+            nodeid, we = (b"\x00" * 20, b"\x00" * 32) if trial == 0 else (content(r, 20), content(r, 32))
+            header = sch.header(nodeid, we)
+            fixed = header[:MutableShareFile.HEADER_SIZE]
+            # every proper prefix of the magic is rejected; from the full magic on the header is recognised as ITS version
+            for cut in range(0, len(fixed) + 1):
+                if cut > 33 and not thorough and cut not in (34, 52, 99, 100):
+                    continue
+                data = fixed[:cut]
+                ver, valid = recognise(data)
+                case = {"codec": "mutable-recognition", "op": "schema_from_header", "input": data.hex(), "version": v, "cut": cut}
+                ctx.case(("recog", v, data) if ver is not None else None, kind="mutable-recognition-prefix")
+                if cut < 32 and (ver is not None or valid):
+                    ctx.oracle_fail("mutable-header-accepts-truncated", "the first %d byte(s) %r of a v%d mutable container header were recognised (schema_from_header -> %s, is_valid_header -> %s)" % (
+                        cut, data, v, "v%s" % ver if ver is not None else None, valid), case=case, expected="None / False", observed=[ver, valid])
+                if cut >= 32 and (ver != v or not valid):
+                    ctx.oracle_fail("mutable-header-not-recognised", "a v%d mutable container header (first %d bytes) was recognised as %r" % (v, cut, ver), case=case, expected=v, observed=[ver, valid])
+                if trial == 0 or cut in (0, 1, 25, 26, 27, 31, 32):
+                    B.add(model_term(data, ver), "header-recognition", "schema_from_header of the first %d bytes of a v%d header" % (cut, v), case, ver)
+                # the same through real files: MutableShareFile(filename) and get_share_file(filename)
+                if cut < 32 and (trial == 0 or cut in (0, 31)):
+                    fn = os.path.join(d, "cut-%d-%d-%d" % (v, trial, cut))
+                    with open(fn, "wb") as f:
+                        f.write(data)
+                    opened = []
+                    try:
+                        m = MutableShareFile(fn)
+                        opened.append("MutableShareFile v%d" % m._schema.version)
+                    except UnknownMutableContainerVersionError:
+                        pass
+                    try:
+                        g = get_share_file(fn)
+                        if isinstance(g, MutableShareFile):
+                            opened.append("get_share_file -> MutableShareFile v%d" % g._schema.version)
+                        else:
+                            opened.append("get_share_file -> ShareFile v%d" % g._schema.version)
+                    except (UnknownMutableContainerVersionError, UnknownImmutableContainerVersionError, struct.error):
+                        pass
+                    ctx.case(None, kind="mutable-recognition-file")
+                    if opened:
+                        ctx.oracle_fail("mutable-header-accepts-truncated", "a %d-byte file holding the start of a v%d mutable header was opened as a container: %s" % (cut, v, ", ".join(opened)),
+                                        case=dict(case, op="open-file"), expected="Unknown*ContainerVersionError", observed=opened)
+            # every single-bit mutation of the magic is rejected (never read as this or another version)
+            bits = range(256) if (trial == 0 or thorough) else [r.randrange(256) for _ in range(24)]
+            for bit in bits:
+                pos = bit // 8
+                data = fixed[:pos] + bytes([fixed[pos] ^ (1 << (bit % 8))]) + fixed[pos + 1:]
+                if r.randrange(3) == 0:
+                    data = data[:32]
+                ver, valid = recognise(data)
+                case = {"codec": "mutable-recognition", "op": "schema_from_header", "input": data.hex(), "version": v, "flipped_bit": bit}
+                ctx.case(None, kind="mutable-recognition-bitflip")
+                if ver is not None or valid:
+                    ctx.oracle_fail("mutable-header-accepts-bad-magic", "a v%d mutable header with bit %d of the magic flipped was recognised as %r" % (v, bit, ver), case=case,
+                                    expected="None / False", observed=[ver, valid])
+                if trial == 0 and bit % 8 == 3 or bit in (200, 201, 202):
+                    B.add(model_term(data, ver), "header-recognition", "schema_from_header with bit %d of the magic flipped" % bit, case, ver)
+    # immutable: is_valid_header looks at the 4-byte version field only
+    for sch in sorted(immutable_schema.ALL_SCHEMAS, key=lambda x: x.version):
+        v = sch.version
+        header = sch.header(ctx.rng("irecog", v).choice([0, 1, 1000, 2 ** 32]))
+
+        def ivalid(data):
+            try:
+                return bool(ShareFile.is_valid_header(data))
+            except struct.error:
+                return False
+        for cut in range(0, 13):
+            data = header[:cut]
+            ok = ivalid(data)
+            case = {"codec": "immutable-recognition", "op": "is_valid_header", "input": data.hex(), "version": v, "cut": cut}
+            ctx.case(("irecog", v, data) if ok else None, kind="immutable-recognition-prefix")
+            if cut < 4 and ok:
+                ctx.oracle_fail("immutable-header-accepts-truncated", "the first %d byte(s) of a v%d immutable header were accepted by is_valid_header" % (cut, v), case=case)
+            if cut >= 4 and not ok:
+                ctx.oracle_fail("immutable-header-not-recognised", "is_valid_header rejected the first %d bytes of a v%d immutable header" % (cut, v), case=case)
+            if cut == 12:
+                B.add("opt_triple_eqb (imm_header_parse %s) (Some (%s, %s, 0))" % (T.bytes_(data), T.N(v), T.N(struct.unpack(">L", data[4:8])[0])),
+                      "header-recognition", "immutable header recognised", case, ok)
+            if cut < 12:
+                fn = os.path.join(d, "icut-%d-%d" % (v, cut))
+                with open(fn, "wb") as f:
+                    f.write(data)
+                try:
+                    ShareFile(fn)
+                    opened = True
+                except (UnknownImmutableContainerVersionError, struct.error):
+                    opened = False
+                if opened:
+                    ctx.oracle_fail("immutable-header-accepts-truncated", "a %d-byte file holding the start of a v%d immutable header was opened as a ShareFile" % (cut, v), case=dict(case, op="open-file"))
+        for bit in range(32):
+            data = bytearray(header)
+            data[bit // 8] ^= 1 << (bit % 8)
+            data = bytes(data)
+            ok = ivalid(data)
+            sv = immutable_schema.schema_from_version(struct.unpack(">L", data[:4])[0])
+            case = {"codec": "immutable-recognition", "op": "is_valid_header", "input": data.hex(), "version": v, "flipped_bit": bit}
+            ctx.case(None, kind="immutable-recognition-bitflip")
+            if ok or sv is not None:
+                ctx.oracle_fail("immutable-header-accepts-bad-version", "a v%d immutable header with bit %d of the version field flipped was accepted" % (v, bit), case=case)
+            if bit % 3 == 0 or bit < 2:
+                B.add("opt_triple_eqb (imm_header_parse %s) None" % T.bytes_(data), "header-recognition", "immutable header with a version bit flipped", case, ok)
+
+
+
 def run(ctx):
     B = Batch(ctx)
     run_base32(ctx, B)
@@ -989,6 +1118,7 @@ def run(ctx):
     run_ueb(ctx, B)
     run_lease(ctx, B)
     run_headers(ctx, B)
+    run_recognition(ctx, B)
     B.flush()
 
 
